@@ -633,6 +633,8 @@ class Engine:
         if isinstance(v, bool):
             return SV(KBool, z3.BoolVal(v))
         if isinstance(v, enum.Enum):
+            if not isinstance(v.value, int):
+                return SV(KConst, None, const=v)        # e.g. grpc.StatusCode (tuple-valued): an opaque constant
             return SV(KEnum(type(v)), z3.IntVal(int(v.value)))
         if isinstance(v, int):
             return SV(KInt, z3.IntVal(v))
